@@ -175,7 +175,8 @@ Theorem C08_will_message_fields : forall cid m s,
       send_will cid m s = (let '(s', o, _) := deliver cid m' (retain_update m' s) in (s', o)) /\
       b_ret (fst (send_will cid m s)) = b_ret (retain_update m' s) /\
       (m' = m \/ exists t p q, m' = with_topic_payload_qos t p q m) /\
-      m_retained m' = m_retained m /\ m_ctype m' = m_ctype m /\ m_corr m' = m_corr m /\ m_expiry m' = m_expiry m /\
+      m_retained m' = (match will_action cid s with MRewrite _ _ q => rw_retain q (m_retained m) | _ => m_retained m end) /\
+      m_ctype m' = m_ctype m /\ m_corr m' = m_corr m /\ m_expiry m' = m_expiry m /\
       m_pfmt m' = m_pfmt m /\ m_resp m' = m_resp m /\ m_uprops m' = m_uprops m
   | None => send_will cid m s = (s, [])
   end.
